@@ -1740,3 +1740,54 @@ def r17_9(ctx):
             else:
                 ctx.ok((fn, 'listen via reset', s_), sample=dict(fn=fn, enters='LISTEN', after='reset()'))
     ctx.need(n >= 2, f"transitions into LISTEN (found {n})")
+
+
+@rule('R17.10', ['C17', 'C02', 'C01'], floor=2, clause='while the SYN may be unacknowledged, process() counts it: every state that an API call can reach from a SYN-unacknowledged state (without a segment arriving) is a state in which the acknowledgment accounting still includes the SYN')
+def r17_10(ctx):
+    from .c17 import extract_relation, STATE
+    F = ctx.F
+    SOCK = 'socket::tcp::Socket'
+    b = ctx.method(SOCK, 'process')
+    # the (sent_syn, sent_fin) table: constant bool pairs chosen by the first match on self.state
+    table = {}
+    states = F.variants(STATE)
+    for bi, bl in enumerate(b.blocks):
+        if bl['cl'] or bl['t'][0] != 'switch':
+            continue
+        fs = [(tb, lab, f) for tb, lab, f in cond_facts(F, b, bi) if f[0] in ('is', 'isnot') and f[3] == STATE and is_field(f[1], SOCK, 'state')]
+        if not fs:
+            continue
+        for v in states:
+            tgt = [tb for tb, lab, f in fs if f[0] == 'is' and f[2] == v] or [tb for tb, lab, f in fs if f[0] == 'isnot' and v not in f[2]]
+            for tb in tgt[:1]:
+                cur = tb
+                for _ in range(4):
+                    blk = b.blocks[cur]
+                    for s in blk['s']:
+                        if s[0] == 'a' and s[2][0] == 'agg' and s[2][1].get('k') == 'tuple' and len(s[2][2]) == 2 and all(o[0] == 'k' and isinstance(o[2], bool) for o in s[2][2]):
+                            table.setdefault(v, (s[2][2][0][2], s[2][2][1][2]))
+                    if v in table or blk['t'][0] != 'goto':
+                        break
+                    cur = blk['t'][1]
+        if len(table) >= 6:
+            break
+    ctx.need(len(table) == len(states), f"(sent_syn, sent_fin) per state in tcp::Socket::process (found {table})")
+    unacked = {v for v, (syn, fin) in table.items() if syn}
+    ctx.need(unacked, "states in which the SYN counts as unacknowledged")
+    rel = extract_relation(ctx, ['close', 'abort', 'listen', 'connect'])
+    n = 0
+    for (fn, frm, label, to), sites in sorted(rel.items(), key=str):
+        if not frm or not to:
+            continue
+        for a in sorted(frm & unacked):
+            for t_ in sorted(to):
+                if t_ == a or t_ == 'Closed':
+                    continue
+                n += 1
+                if t_ in unacked:
+                    ctx.ok((fn, a, t_), sample=dict(api=fn, frm=a, to=t_, syn_still_counted=True))
+                else:
+                    ctx.bad(f"{fn}|{a}->{t_}|syn-forgotten", f"{fn}() moves a socket from {a} - where our SYN may still be unacknowledged - to {t_}, a state in which process() no longer counts "
+                            f"the SYN (sent_syn = false): the peer's ACK of the SYN is then accounted as acknowledging the FIN, and the socket leaves {t_} although its FIN was never sent", body=ctx.method(SOCK, fn))
+    for v in sorted(unacked):
+        ctx.ok(('process', 'counts SYN in', v), sample=dict(state=v, sent_syn=True))
